@@ -2,9 +2,9 @@
 # usage: run_all.sh [tier] [seed]   -- runs every check, prints one summary line each
 TIER=${1:-quick}; SEED=${2:-1}
 cd "$(dirname "$0")/.."
-for n in 01 02 03 04 05 06 07 08 09 10 11 12 13 14 15 16 17 18 19 20; do
+for n in ${CHECKS:-01 02 03 04 05 06 07 08 09 10 11 12 13 14 15 16 17 18 19 20}; do
   s=$(date +%s)
-  VERIF_SEED=$SEED /venv/bin/python -B run.py C$n --tier $TIER > /tmp/runall_${SEED}_C$n.log 2>&1; rc=$?
+  VERIF_SEED=$SEED /venv/bin/python -B run.py C$n --tier $TIER > /tmp/runall_${TIER}_${SEED}_C$n.log 2>&1; rc=$?
   e=$(date +%s)
-  echo "C$n rc=$rc $((e-s))s $(grep -E '^\[C' /tmp/runall_${SEED}_C$n.log | tail -1 | cut -c1-140) $(grep -c VIOLATION /tmp/runall_${SEED}_C$n.log) viol"
+  echo "C$n rc=$rc $((e-s))s $(grep -E '^\[C' /tmp/runall_${TIER}_${SEED}_C$n.log | tail -1 | cut -c1-140) $(grep -c VIOLATION /tmp/runall_${TIER}_${SEED}_C$n.log) viol"
 done
